@@ -43,7 +43,7 @@ FREE_TEXT = ("name", "CFF ", "CFF2", "meta", "SVG ", "TSI0", "TSI1", "TSI2", "TS
 # the last four collide pairwise as per-glyph file names (splitGlyphs): 'A/b' and 'A_b' both give
 # A__b (an upper-case clash), 'a?b' and 'a*b' both give a_b
 HOSTILE_GLYPHS = ["a&b", "a<b", 'a"b', "a'b", "a>b", "a b", "a]]>b", "a.b-c", "Aacute_", "_1", "A/b", "A_b", "a?b", "a*b"]
-HOSTILE_STRINGS = ["<", ">", "&", '"', "'", " lead", "trail ", "two  spaces", "tab\there", "é", "￿"[:0] + " ", "\U0001F600", "]]>", "a&amp;b", "&#65;", "line\nbreak"]
+HOSTILE_STRINGS = ["x--y", "--", "a---b", "ends-", "-->", "<!-- c -->", "<", ">", "&", '"', "'", " lead", "trail ", "two  spaces", "tab\there", "é", "￿"[:0] + " ", "\U0001F600", "]]>", "a&amp;b", "&#65;", "line\nbreak"]
 
 
 def load_fonts():
@@ -86,7 +86,13 @@ def load_fonts():
     # hostile glyph names and name strings
     spec = {"kind": "ttf", "shapes": "mixed", "glyphs": HOSTILE_GLYPHS, "cmap": {0x41 + i: g for i, g in enumerate(HOSTILE_GLYPHS)},
             "fea": "feature liga { sub \\a.b-c \\Aacute_ by \\_1; } liga;"}
+    # ... every one of them referenced as a UI name of a stylistic set (name IDs 256.. in order): the
+    # dump writes the string next to the reference, as a comment
+    uinames = "".join("feature ss%02d { featureNames { name \"n%d\"; }; sub \\a.b-c by \\_1; } ss%02d;\n" % (i + 1, i, i + 1) for i in range(min(20, len(HOSTILE_STRINGS))))
+    spec["fea"] = uinames + spec["fea"]
     f = tinyfont.build(spec)
+    ui = sorted(fr.Feature.FeatureParams.UINameID for fr in f["GSUB"].table.FeatureList.FeatureRecord if fr.FeatureTag.startswith("ss"))
+    assert ui == list(range(256, 256 + min(20, len(HOSTILE_STRINGS)))), ui
     for i, s in enumerate(HOSTILE_STRINGS):
         f["name"].setName(s, 256 + i, 3, 1, 0x409)
         try:
